@@ -183,7 +183,156 @@ func validateGroup(spec *harnessSpec, files, funcs map[string]bool, samples []*v
 	return ok, probs
 }
 
+var litmusTestTmpl = `package %s
+
+import (
+	"fmt"
+	"sort"
+	"strings"
+	"testing"
+
+	"verifrt"
+)
+
+func TestVerifLitmus(t *testing.T) {
+	hs := map[string]func(){%s}
+	names := make([]string, 0, len(hs))
+	for n := range hs {
+		names = append(names, n)
+	}
+	sort.Strings(names)
+	for _, name := range names {
+		seen := map[string]int{}
+		for k := 0; k < %d; k++ {
+			_, p, _, obs := verifrt.RunSample(verifrt.Sample{Harness: name}, hs[name])
+			o := strings.Join(obs, "|")
+			if p != nil {
+				o = "PANIC " + fmt.Sprint(p)
+			}
+			seen[o]++
+		}
+		for o, n := range seen {
+			fmt.Printf("VERIF-LITMUS %%s %%q %%d\n", name, o, n)
+		}
+	}
+	fmt.Println("VERIF-LITMUS-END")
+}
+`
+
+// runLitmus: every harness registered with prop=LITMUS is explored exhaustively by the engine (all schedules
+// within its pre-emption bound) and run natively many times (under the race detector's scheduler perturbation when
+// available); every outcome seen natively must be among the engine's outcomes. Exit 0 if so.
 func runLitmus(args []string) int {
-	fmt.Println("litmus: not built (see DESIGN.md section 0: translator validation is done per run on sampled paths)")
+	_, flags := parseArgs(args)
+	all, err := scanHarnesses()
+	if err != nil {
+		fmt.Fprintln(os.Stderr, err)
+		return 2
+	}
+	var specs []*harnessSpec
+	for _, h := range all {
+		if h.Prop == "LITMUS" {
+			specs = append(specs, h)
+		}
+	}
+	if len(specs) == 0 {
+		fmt.Println("no litmus harness")
+		return 2
+	}
+	prog, err := loadProgram(specs)
+	if err != nil {
+		fmt.Fprintln(os.Stderr, "litmus harnesses do not load:", err)
+		return 2
+	}
+	engine := map[string]map[string]int{}
+	bad := 0
+	for _, h := range specs {
+		rep := gosym.Explore(prog, h.Import+"."+h.Func, gosym.Options{Preempt: h.tiered("preempt", "quick", 6), Workers: 12, MaxRuns: 2_000_000, MaxSteps: 2_000_000})
+		engine[h.Func] = rep.ObsSets
+		if len(rep.Violations) > 0 || len(rep.Unsupported) > 0 || len(rep.Internal) > 0 || rep.Incomplete != "" {
+			fmt.Printf("LITMUS %s: engine run not clean: violations=%d unsupported=%v internal=%v %s\n", h.Func, len(rep.Violations), rep.Unsupported, rep.Internal, rep.Incomplete)
+			for _, v := range rep.Violations {
+				fmt.Printf("   %s: %s %s\n", v.Kind, v.Label, v.Detail)
+			}
+			bad++
+		}
+	}
+	// native side
+	tmp, err := os.MkdirTemp("", "gosym-litmus-")
+	if err != nil {
+		return 2
+	}
+	defer os.RemoveAll(tmp)
+	repl := map[string]string{}
+	var dir string
+	var fl []string
+	files := map[string]bool{}
+	for _, h := range specs {
+		files[h.File] = true
+		fl = append(fl, fmt.Sprintf("%q: %s", h.Func, h.Func))
+	}
+	for f := range files {
+		hf, _, err := gosym.HarnessTarget(repoDir, f)
+		if err != nil {
+			return 2
+		}
+		repl[hf.Target] = hf.Src
+		dir = filepath.Dir(hf.Target)
+	}
+	sort.Strings(fl)
+	iters := 3000
+	if n := flags["iters"]; n != "" {
+		fmt.Sscanf(n, "%d", &iters)
+	}
+	testSrc := filepath.Join(tmp, "litmus_test.go")
+	os.WriteFile(testSrc, []byte(fmt.Sprintf(litmusTestTmpl, specs[0].PkgName, strings.Join(fl, ", "), iters)), 0o644)
+	repl[filepath.Join(dir, "zz_verif_litmus_test.go")] = testSrc
+	ob, _ := json.Marshal(map[string]any{"Replace": repl})
+	opath := filepath.Join(tmp, "overlay.json")
+	os.WriteFile(opath, ob, 0o644)
+	cmd := exec.Command("go", "test", "-v", "-vet=off", "-count=1", "-tags=verif", "-overlay", opath, "-run", "^TestVerifLitmus$", "-timeout", "900s", specs[0].Import)
+	cmd.Dir = harnessDir
+	cmd.Env = append(os.Environ(), "GOFLAGS=-mod=mod", "GOPROXY=off", "GOSUMDB=off", "GOTOOLCHAIN=local")
+	out, runErr := cmd.CombinedOutput()
+	so := string(out)
+	if !strings.Contains(so, "VERIF-LITMUS-END") {
+		fmt.Printf("native litmus run did not finish (%v): %s\n", runErr, tail(so, 15))
+		return 2
+	}
+	native := map[string]map[string]int{}
+	for _, line := range strings.Split(so, "\n") {
+		var name, o string
+		var n int
+		if _, err := fmt.Sscanf(line, "VERIF-LITMUS %s %q %d", &name, &o, &n); err == nil {
+			if native[name] == nil {
+				native[name] = map[string]int{}
+			}
+			native[name][o] = n
+		}
+	}
+	for _, h := range specs {
+		var eng, nat, extra []string
+		for o := range engine[h.Func] {
+			eng = append(eng, o)
+			if _, ok := native[h.Func][o]; !ok {
+				extra = append(extra, o)
+			}
+		}
+		status := "ok"
+		for o := range native[h.Func] {
+			nat = append(nat, o)
+			if _, ok := engine[h.Func][o]; !ok {
+				status = "MISMATCH (native outcome the engine does not produce)"
+				bad++
+			}
+		}
+		sort.Strings(eng)
+		sort.Strings(nat)
+		sort.Strings(extra)
+		fmt.Printf("LITMUS %-28s %s  engine=%v native=%v engine-only=%v\n", h.Func, status, eng, nat, extra)
+	}
+	if bad > 0 {
+		return 1
+	}
 	return 0
 }
